@@ -59,6 +59,13 @@ static void terminateHandler() {
 		catch (const std::exception& ex) { keep = ex.what(); what = keep.c_str(); }
 		catch (...) { what = "non-std exception"; }
 	}
+	if (g_alloc.injectionInFlight) {
+		// The process ended on an INJECTED allocation failure (std::bad_alloc met a noexcept boundary). No property promises more than
+		// that under memory exhaustion - dying on out-of-memory is what programs do - so this ends the run without a verdict.
+		fprintf(stderr, "\nSIMRUN-OOM-TERMINATE: std::terminate on an injected allocation failure (%s)\n", what);
+		fflush(stderr);
+		_exit(80);
+	}
 	fprintf(stderr, "\nSIMRUN-TERMINATE: std::terminate called (%s)\n", what);
 	fflush(stderr);
 	_exit(78);
@@ -807,6 +814,9 @@ int superviseMain(int argc, char** argv) {
 			std::string variant = sl.variant;
 			if (sl.phase == 1) {
 				infraErrors.push_back("worker died while generating a plan (" + parts[part].family + " index " + std::to_string(idx) + "): " + klass);
+			} else if (WIFEXITED(status) && WEXITSTATUS(status) == 80) {
+				agg[part].runs++;
+				agg[part].counters["fault.alloc_fail_ended_the_process"]++;
 			} else {
 				agg[part].runs++;
 				cands.push_back(Cand{part, idx, cfg.prop + ".crash", variant, "worker died: " + klass, true});
